@@ -169,7 +169,13 @@ func c08Peer(adp *AdapterProxy, steps int) {
 				more = false
 			}
 		}
-		switch act := vapi.Choice("peer", 6); act {
+		act := vapi.Choice("peer", 6)
+		if !vapi.Engine() && act >= 2 {
+			// native replay: unsolicited packets (stray id, push, reconnect notification) are sent
+			// once the callers are past the RequestPack pause and wait for their replies
+			time.Sleep(10 * time.Millisecond)
+		}
+		switch act {
 		case 0, 1: // reply to the act-th request seen (if any); payload identifies the id
 			if act < len(seen) {
 				go adp.Recv(c08Reply(seen[act], int8(seen[act])))
